@@ -424,22 +424,31 @@ func (x *Exec) runFunc(fd *ast.FuncDecl, c *Contract, sc splitCase, first bool) 
 	// not a feasible path reached it in this run: a failed obligation cuts the
 	// paths behind it, and must still be reported)
 	hdrs, stmts := x.sourceAnchors(fd)
+	unbound := func(what, anchor string) {
+		// the annotation is dropped and reported as undecided; everything else
+		// in the function is still checked
+		o := &Obligation{Name: fmt.Sprintf("%s.annotation.unbound(%s %q)", x.qual, what, anchor), Base: fmt.Sprintf("%s.annotation.unbound(%s %q)", x.qual, what, anchor), Kind: "engine", Func: x.qual, Clause: "annotation.unbound", Goal: x.b.False(), Case: x.caseLabel, bank: x.b}
+		o.Hyps = nil
+		x.obls = append(x.obls, o)
+	}
 	for _, h := range c.LoopTextOrder {
 		if x.loopTextHits[x.qual+"|"+h] == 0 && !hasPrefixIn(hdrs, h) {
-			x.fail("loop header %q matches no loop of %s", h, x.qual)
-			return
+			unbound("loop", h)
 		}
 	}
 	for _, aa := range c.AssertBefore {
 		if x.anchorHits["assert:"+aa.Anchor] == 0 && !hasPrefixIn(stmts, aa.Anchor) {
-			x.fail("assertbefore anchor %q matches no statement of %s", aa.Anchor, x.qual)
-			return
+			unbound("assertbefore", aa.Anchor)
 		}
 	}
 	for _, ga := range c.GhostAfter {
 		if x.anchorHits[ga.Anchor] == 0 && !hasPrefixIn(stmts, ga.Anchor) {
-			x.fail("ghostafter anchor %q matches no statement of %s", ga.Anchor, x.qual)
-			return
+			unbound("ghostafter", ga.Anchor)
+		}
+	}
+	for _, ga := range c.GhostBefore {
+		if x.anchorHits["before:"+ga.Anchor] == 0 && !hasPrefixIn(stmts, ga.Anchor) {
+			unbound("ghostbefore", ga.Anchor)
 		}
 	}
 	if len(exits) == 0 {
@@ -1151,7 +1160,7 @@ func (x *Exec) sourceAnchors(fd *ast.FuncDecl) (hdrs, stmts []string) {
 			hdrs = append(hdrs, x.loopHeader(s))
 		case *ast.RangeStmt:
 			hdrs = append(hdrs, x.loopHeader(s))
-		case *ast.AssignStmt, *ast.ExprStmt, *ast.IncDecStmt, *ast.DeclStmt, *ast.ReturnStmt, *ast.BranchStmt:
+		case *ast.AssignStmt, *ast.ExprStmt, *ast.IncDecStmt, *ast.DeclStmt, *ast.ReturnStmt, *ast.BranchStmt, *ast.SendStmt:
 			stmts = append(stmts, x.eng.srcText(s.(ast.Node)))
 		}
 		return true
